@@ -5,12 +5,17 @@ package proxy
 import (
 	"bytes"
 	"context"
+	"encoding/json"
 	"fmt"
 	"net"
+	"os"
+	"os/exec"
+	"runtime/debug"
 	"sort"
 	"strings"
 	"sync"
 	"testing"
+	"time"
 
 	"github.com/go-logr/logr"
 	"github.com/robinbraemer/event"
@@ -72,6 +77,11 @@ type c23Case struct {
 	Proxy    []c23Node `json:"proxy"`   // [0] is the root
 	Backend  []c23Node `json:"backend"` // [0] is the root
 	Perms    []string  `json:"perms"`   // permissions the player holds
+	// Graph: build the proxy tree node by node with CommandNode.AddChild instead of
+	// nested builders, which allows redirects to the dispatcher root (index 0) and
+	// to ancestors (the `execute run -> root` pattern). Only used by the
+	// redirect-cycle sub-check, which runs each case in a child process.
+	Graph bool `json:"graph,omitempty"`
 }
 
 type c23Type struct {
@@ -382,6 +392,7 @@ type c23Model struct {
 	root  *c23Exp
 	px    map[int]*c23Exp
 	bk    map[int]*c23Exp
+	pxRoot *c23Exp
 }
 
 func c23Kind(k string) byte {
@@ -416,11 +427,32 @@ func (m *c23Model) proxy(i int) *c23Exp {
 			e.deniedChildren[ch.Name] = true
 		}
 	}
-	if n.Redirect >= 0 {
+	if n.Redirect == 0 {
+		e.redirect = m.proxyRoot()
+	} else if n.Redirect > 0 {
 		if c23Passes(m.c.Proxy[n.Redirect].Req, m.perms) {
 			e.redirect = m.proxy(n.Redirect)
 		} else {
 			e.deniedRedirect = true
+		}
+	}
+	return e
+}
+
+// proxyRoot is what a proxy node redirecting to the dispatcher root must point
+// at: a root node holding exactly the usable proxy commands (not the merged root).
+func (m *c23Model) proxyRoot() *c23Exp {
+	if m.pxRoot != nil {
+		return m.pxRoot
+	}
+	e := &c23Exp{origin: "proxy", restricted: -1, children: map[string]*c23Exp{}, deniedChildren: map[string]bool{}}
+	m.pxRoot = e
+	for _, ci := range m.c.Proxy[0].Children {
+		ch := m.c.Proxy[ci]
+		if c23Passes(ch.Req, m.perms) {
+			e.children[ch.Name] = m.proxy(ci)
+		} else {
+			e.deniedChildren[ch.Name] = true
 		}
 	}
 	return e
@@ -607,6 +639,53 @@ func c23BuildProxy(c c23Case, mgr *command.Manager) {
 		}
 	}
 	run := command.Command(func(*command.Context) error { return nil })
+	if c.Graph {
+		mk := func(i int) {
+			n := nodes[i]
+			var nb brigodier.NodeBuilder
+			if n.Kind == "lit" {
+				nb = brigodier.Literal(n.Name).NodeBuilder()
+			} else {
+				ab := brigodier.Argument(n.Name, c23ProxyArgType(n.Type))
+				if n.Suggest != "" {
+					ab.Suggests(c23Suggest{})
+				}
+				nb = ab.NodeBuilder()
+			}
+			if r := requirement(n.Req); r != nil {
+				nb.Requires(r)
+			}
+			if n.Exec {
+				nb.Executes(run)
+			}
+			if n.Redirect == 0 {
+				nb.Redirect(&mgr.Root)
+			} else if n.Redirect > 0 {
+				nb.Redirect(built[n.Redirect])
+			}
+			built[i] = nb.Build()
+		}
+		for i := 1; i < len(nodes); i++ {
+			if nodes[i].Redirect < 0 {
+				mk(i)
+			}
+		}
+		for i := 1; i < len(nodes); i++ {
+			if nodes[i].Redirect >= 0 {
+				mk(i)
+			}
+		}
+		for i, n := range nodes {
+			for _, ci := range n.Children {
+				if i == 0 {
+					mgr.Root.AddChild(built[ci])
+				} else {
+					built[i].AddChild(built[ci])
+				}
+			}
+		}
+		return
+	}
 	var build func(i int) brigodier.CommandNode
 	apply := func(i int, nb brigodier.NodeBuilder) {
 		n := nodes[i]
@@ -700,7 +779,9 @@ func c23Run(c c23Case) verifkit.Result {
 				add("denied-below-allowed")
 			}
 		}
-		if n.Redirect >= 0 {
+		if n.Redirect == 0 {
+			add("redirect-to-root-visible")
+		} else if n.Redirect > 0 {
 			if c23Passes(c.Proxy[n.Redirect].Req, model.perms) {
 				add("redirect-to-usable")
 				visit(n.Redirect, seen)
@@ -1017,6 +1098,184 @@ func c23Gen(t *rapid.T) c23Case {
 	}
 	c.Backend = bk
 	return c
+}
+
+// ---------------------------------------------------------------- redirect cycles (child process)
+
+// A proxy tree whose redirect leads back to the dispatcher root or to an ancestor
+// (brigadier's `execute run -> root` idiom; brigodier documents Dispatcher.Root as
+// "often useful as a target of an ArgumentBuilder.Redirect") makes a recursive
+// walker without a visited set overflow the goroutine stack, which is fatal for
+// the whole process and cannot be recovered in-process. Each such case therefore
+// runs c23Run in a child process (this test binary re-executed with
+// -test.run=^TestVerif_C23Child$) with a small stack limit.
+
+const c23ChildEnv = "VERIF_C23_CHILD_CASE"
+
+type c23ChildResult struct {
+	Key          string   `json:"key,omitempty"`
+	Msg          string   `json:"msg,omitempty"`
+	NonTrivial   bool     `json:"nontrivial"`
+	Inconclusive bool     `json:"inconclusive"`
+	Labels       []string `json:"labels"`
+}
+
+func TestVerif_C23Child(t *testing.T) {
+	raw := os.Getenv(c23ChildEnv)
+	if raw == "" {
+		t.Skip("child entry point of the C23 redirect-cycle sub-check")
+	}
+	debug.SetMaxStack(48 << 20)
+	var c c23Case
+	if err := json.Unmarshal([]byte(raw), &c); err != nil {
+		t.Fatalf("bad child case: %v", err)
+	}
+	r := c23Run(c)
+	out := c23ChildResult{NonTrivial: r.NonTrivial, Inconclusive: r.Inconclusive, Labels: r.Labels}
+	if r.V != nil {
+		out.Key, out.Msg = r.V.Key, r.V.Msg
+	}
+	b, _ := json.Marshal(out)
+	fmt.Printf("\nC23CHILD-RESULT %s\n", b)
+}
+
+func c23CycleRun(c c23Case) verifkit.Result {
+	// classification from the spec: is a redirect back edge visible to the player?
+	perms := map[string]bool{}
+	for _, p := range c.Perms {
+		perms[p] = true
+	}
+	parent := map[int]int{}
+	for i, n := range c.Proxy {
+		for _, ci := range n.Children {
+			parent[ci] = i
+		}
+	}
+	visibleCycle := false
+	for i, n := range c.Proxy {
+		if i == 0 || n.Redirect < 0 {
+			continue
+		}
+		back := n.Redirect == 0
+		for a := parent[i]; a != 0 && !back; a = parent[a] {
+			if a == n.Redirect {
+				back = true
+			}
+		}
+		if !back {
+			continue
+		}
+		vis := true
+		for a := i; a != 0; a = parent[a] {
+			if !c23Passes(c.Proxy[a].Req, perms) {
+				vis = false
+			}
+		}
+		if vis {
+			visibleCycle = true
+		}
+	}
+	labels := []string{"cycle-hidden-by-requirement"}
+	if visibleCycle {
+		labels = []string{"cycle-visible"}
+	}
+
+	raw, _ := json.Marshal(c)
+	ctx, cancel := context.WithTimeout(context.Background(), 120*time.Second)
+	defer cancel()
+	cmd := exec.CommandContext(ctx, os.Args[0], "-test.run", "^TestVerif_C23Child$", "-test.count", "1")
+	var env []string
+	for _, e := range os.Environ() {
+		if strings.HasPrefix(e, "VERIF_") || strings.HasPrefix(e, "GORACE=") {
+			continue
+		}
+		env = append(env, e)
+	}
+	cmd.Env = append(env, c23ChildEnv+"="+string(raw))
+	outB, err := cmd.CombinedOutput()
+	out := string(outB)
+	if i := strings.Index(out, "C23CHILD-RESULT "); i >= 0 {
+		line := out[i+len("C23CHILD-RESULT "):]
+		if j := strings.IndexByte(line, '\n'); j >= 0 {
+			line = line[:j]
+		}
+		var r c23ChildResult
+		if json.Unmarshal([]byte(line), &r) == nil {
+			labels = append(labels, r.Labels...)
+			if r.Key != "" {
+				return verifkit.Result{V: verifkit.Violationf(r.Key, "%s", r.Msg), Labels: labels}
+			}
+			return verifkit.Result{NonTrivial: visibleCycle, Inconclusive: r.Inconclusive, Labels: labels}
+		}
+	}
+	if strings.Contains(out, "stack overflow") || strings.Contains(out, "goroutine stack exceeds") {
+		site := "unknown"
+		for _, fn := range []string{"proxy.filterNode", "packet.(*AvailableCommands).Encode", "brigodier."} {
+			if strings.Contains(out, fn) {
+				site = fn
+				break
+			}
+		}
+		tail := out
+		if len(tail) > 1500 {
+			tail = tail[:1500]
+		}
+		return verifkit.Result{V: verifkit.Violationf("redirect-cycle:stack-overflow:"+site,
+			"the proxy process dies with a stack overflow while merging a proxy tree whose redirect leads back to the root/an ancestor; the player receives nothing. child output:\n%s", tail), Labels: labels}
+	}
+	_ = err
+	return verifkit.Result{Inconclusive: true, Labels: append(labels, "child-process-trouble")}
+}
+
+func c23GenCycle(t *rapid.T) c23Case {
+	c := c23Gen(t)
+	c.Graph = true
+	// drop aliases (RegisterWithAliases is a builder-level feature)
+	var keepRoot []int
+	for _, ci := range c.Proxy[0].Children {
+		if c.Proxy[ci].AliasOf == 0 {
+			keepRoot = append(keepRoot, ci)
+		}
+	}
+	c.Proxy[0].Children = keepRoot
+	n := len(c.Proxy)
+	for n > 1 && c.Proxy[n-1].AliasOf != 0 {
+		n--
+	}
+	c.Proxy = c.Proxy[:n]
+	parent := map[int]int{}
+	for i, nd := range c.Proxy {
+		for _, ci := range nd.Children {
+			parent[ci] = i
+		}
+	}
+	var leaves []int
+	for i := 1; i < len(c.Proxy); i++ {
+		if len(c.Proxy[i].Children) == 0 {
+			leaves = append(leaves, i)
+		}
+	}
+	nb := rapid.IntRange(1, 2).Draw(t, "nBackEdges")
+	for k := 0; k < nb && len(leaves) > 0; k++ {
+		li := rapid.IntRange(0, len(leaves)-1).Draw(t, "leaf")
+		leaf := leaves[li]
+		leaves = append(leaves[:li], leaves[li+1:]...)
+		targets := []int{0}
+		for a := parent[leaf]; a != 0; a = parent[a] {
+			targets = append(targets, a)
+		}
+		c.Proxy[leaf].Redirect = rapid.SampledFrom(targets).Draw(t, "backTarget")
+		if rapid.Bool().Draw(t, "openLeaf") {
+			c.Proxy[leaf].Req = "" // make the cycle reachable more often
+		}
+	}
+	return c
+}
+
+func TestVerif_C23Cycle(t *testing.T) {
+	verifkit.Check(t, "C23", "redirect-cycle",
+		"as merged-tree, but the proxy tree is assembled with CommandNode.AddChild and 1-2 leaves redirect to the dispatcher root or to one of their ancestors (execute-run idiom); every case runs in a child process with a 48 MiB stack limit because a stack overflow is process-fatal; same bisimulation oracle (the redirect must point at a root holding exactly the usable proxy commands / at the filtered ancestor); non-trivial = the redirecting node is visible to the player",
+		c23GenCycle, c23CycleRun)
 }
 
 func TestVerif_C23(t *testing.T) {
